@@ -197,6 +197,13 @@ pub fn register(m: &mut HashMap<&'static str, OpFn>) {
             e(<SubgroupPoint as subtle::ConditionallySelectable>::conditional_select(&p, &q, subtle::Choice::from(0))),
             e(<SubgroupPoint as subtle::ConditionallySelectable>::conditional_select(&p, &q, subtle::Choice::from(1))),
             e({ let mut t = p; zeroize::Zeroize::zeroize(&mut t); t }),
+            // mixed-type compound forms required by CofactorGroup: EdwardsPoint (+=|-=) SubgroupPoint, by reference and value
+            hex({ let mut t = ep; t += &q; t }.compress().as_bytes()),
+            hex({ let mut t = ep; t += q; t }.compress().as_bytes()),
+            hex({ let mut t = ep; t -= &q; t }.compress().as_bytes()),
+            hex({ let mut t = ep; t -= q; t }.compress().as_bytes()),
+            hex((&ep + &q).compress().as_bytes()),
+            hex((&ep - &q).compress().as_bytes()),
         ]
     });
     m.insert("gp.rs_ops", |a| {
